@@ -24,7 +24,10 @@ def main():
         obj = json.load(open(a.replay))
         pid = obj["property"]
         P = importlib.import_module(f"props.{pid}")
-        ops = [obj["op"]] if obj.get("op") else []
+        ops = obj.get("batch_ops") or ([obj["op"]] if obj.get("op") else [])
+        if obj.get("env"):
+            os.environ["VERIF_REPLAY_ENV"] = json.dumps(obj["env"])
+            os.environ["VERIF_REPLAY_FLAVOUR"] = obj.get("flavour") or "plain"
         return engine.run_property(P, "quick", obj.get("seed", seed), replay_lines=ops)
     P = importlib.import_module(f"props.{a.property}")
     return engine.run_property(P, a.tier, seed)
